@@ -6,19 +6,19 @@ PROPS = {
     "C01": {
         "level": "fault_enumeration",
         "tests": [
-            {"name": "TestC01", "quick": 480, "thorough": 30000},
+            {"name": "TestC01", "quick": 1000, "thorough": 30000},
         ],
     },
     "C02": {
         "level": "exploration",
         "tests": [
-            {"name": "TestC02", "quick": 640, "thorough": 40000},
+            {"name": "TestC02", "quick": 1000, "thorough": 40000},
         ],
     },
     "C03": {
         "level": "fault_enumeration",
         "tests": [
-            {"name": "TestC03", "quick": 400, "thorough": 16000},
+            {"name": "TestC03", "quick": 1000, "thorough": 16000},
         ],
     },
     "C10": {
@@ -119,7 +119,7 @@ PROPS = {
     "C09": {
         "level": "exploration",
         "tests": [
-            {"name": "TestC09", "quick": 600, "thorough": 60000, "shards_quick": 10},
+            {"name": "TestC09", "quick": 900, "thorough": 60000, "shards_quick": 10},
             {"name": "TestC09Race", "quick": 120, "thorough": 4000, "race": True, "shards_quick": 6},
             {"name": "TestC09Preempt3", "kind": "plain", "quick": 1, "thorough": 1, "shards_quick": 6, "shards_thorough": 6},
             {"name": "TestC09Exhaustive", "kind": "plain", "quick": 1, "thorough": 1, "tiers": ("thorough",), "shards_thorough": 12},
